@@ -199,10 +199,9 @@ func (e *Engine) verifyFunc(fn *ssa.Function) (u *Unit) {
 				u.staleClauses = append(u.staleClauses, fmt.Sprintf("%s: assertion %s -- %s", funcName(fn), cl.Label, e.broken[cl.FnName]))
 				continue
 			}
-			// `#each` is about every occurrence and says nothing when there is none - except that an anchor which had an
-			// occurrence on the recorded tree and has none now (the call was deleted, not moved into a helper) is what a
-			// numbered anchor without its call is: a failing obligation
-			if !u.assertsSeen[cl.Label] && (!cl.Each || e.anchorWasThere(fr.obName("assert", cl.Label))) {
+			// `#each` is about every occurrence and says nothing when there is none; `#0` (every occurrence, at least one)
+			// and the numbered forms fail when their call is gone
+			if !u.assertsSeen[cl.Label] && !cl.Each {
 				u.oblige(fr.obName("assert", cl.Label), "assert", cl.Tags, "true", "false", fr.pos(fn.Pos()),
 					"anchor call site not found: "+cl.Callee+" #"+fmt.Sprint(cl.Ordinal)+" -- "+cl.Text)
 			}
